@@ -1,7 +1,7 @@
 //! Correspondence harness: runs the real Heathcliff code in-process on generated inputs and
 //! prints one case per line (`fn args => impl-output # class`).  See /verif/DESIGN.md §3.3.
 mod rng; mod util;
-mod big; mod ctx; mod c01; mod c02; mod c04; mod c11; mod c05; mod c06; mod c07; mod c08; mod c09; mod c10; mod c13; mod ser; mod c14; mod c15; mod c16; mod c17;
+mod big; mod ctx; mod c01; mod c02; mod c03; mod c04; mod c11; mod c05; mod c06; mod c07; mod c08; mod c09; mod c10; mod c13; mod ser; mod c14; mod c15; mod c16; mod c17;
 
 fn main() {
     let a: Vec<String> = std::env::args().collect();
@@ -14,6 +14,7 @@ fn main() {
     match a[1].as_str() {
         "C01" => c01::run(&mut out, thorough, seed, &extra),
         "C02" => c02::run(&mut out, thorough, seed, &extra),
+        "C03" => c03::run(&mut out, thorough, seed, &extra),
         "C04" => c04::run(&mut out, thorough, seed, &extra),
         "C11" => c11::run(&mut out, thorough, seed, &extra),
         "C05" => c05::run(&mut out, thorough, seed, &extra),
